@@ -46,8 +46,9 @@ def run (s : Sexp) : String :=
   | .list (.atom "h" :: xs) =>
     match parseOps xs with
     | some ops =>
-      let m := obs (runD Quirks.asIs ops).h.out
-      let mf := obs (runD Quirks.c14Fixed ops).h.out
+      -- F-C14-1/F-C20-2 are repaired in /repo (fix commit c18b52a): the model tied to the code is `Quirks.c14Fixed`
+      let m := obs (runD Quirks.c14Fixed ops).h.out
+      let mf := m
       let mr := obs (runD Quirks.none ops).h.out
       let trig := joinTrig [(trigReeval ops, "F-C13-1"), (trigDiamond ops, "F-C13-2")]
       s!"model={m}\tspec=ok|*\ttrig={trig}\tmodel_fixed={mf}\tmodel_repaired={mr}"
